@@ -150,10 +150,27 @@ DHi(D, S) == LET q == DLo(D, S) IN IF q * q = D * S * S THEN q ELSE q + 1   \* c
 \* (U \div S) % rmax^2 < rmax^2 and 2 rmin t <= 4 rmin^2 S, so the product is < 4 rmax^4 S <= 1.1e9
 LipN(rmin, rmax, t, S) == MulDiv(U \div S, 2 * rmin * t, Sq(rmax)) + 1
 
+\* A second, sharper pair of bounds.  The chord c(t) = sqrt(Heron16(t^2)) / t is CONCAVE on [|a-b|, a+b]
+\* (c^2 = (a+b)^2 + (a-b)^2 - t^2 - ((a+b)(a-b)/t)^2 is concave and positive, so is its square root), it vanishes at
+\* t = a + b and is >= 0 at t = |a - b|.  Integrating -dA/dt = c(t) under the chord line gives the triangles
+\*       A(d) >= (a + b - d) c(d) / 2      and      pi rmin^2 - A(d) >= (d - |a-b|) c(d) / 2.
+\* Unlike the Lipschitz bound, the first one is strictly positive just inside external tangency (it grows like
+\* gap^1.5), so a result of 0 there is outside the enclosure.  All roundings go in the safe direction.
+\* distances for the triangles are taken in 1/TS units, TS as fine as 32-bit arithmetic allows (D * TS^2 < 2^31)
+TS(D) == IF D <= 500 THEN 2000 ELSE IF D <= 2000 THEN 1000 ELSE IF D <= 8000 THEN 500 ELSE IF D <= 50000 THEN 200 ELSE 100
+\* floor( (U / 2) * gap * c(d) / rmax^2 ) with gap = gapS / TS and c(d) >= ISqrt(Heron16) / (DHi / TS);
+\* evaluated only while the products fit in 31 bits (i.e. near the tangencies, where it matters), else 0
+TriN(gapS, a, b, D) == LET h == ISqrt(HeronFactored(a, b, D))
+                           y == gapS * h
+                           dhi == DHi(D, TS(D))
+                       IN IF y < 40 * dhi /\ y < 2147483647 \div dhi
+                          THEN MulDiv(U \div 2, y, dhi) \div Sq(Mx(a, b)) ELSE 0
 LensHi(a, b, D) == LET rmin == Mn(a, b)  rmax == Mx(a, b)  S == SOf(rmax, D) IN
-                   Mn(NormMin(a, b), LipN(rmin, rmax, Mx(0, (a + b) * S - DLo(D, S)), S))
+                   Mn(Mn(NormMin(a, b), LipN(rmin, rmax, Mx(0, (a + b) * S - DLo(D, S)), S)),
+                      NormMin(a, b) + 1 - TriN(Mx(0, DLo(D, TS(D)) - Abs(a - b) * TS(D)), a, b, D))
 LensLo(a, b, D) == LET rmin == Mn(a, b)  rmax == Mx(a, b)  S == SOf(rmax, D) IN
-                   Mx(0, NormMin(a, b) - LipN(rmin, rmax, Mx(0, DHi(D, S) - Abs(a - b) * S), S))
+                   Mx(Mx(0, NormMin(a, b) - LipN(rmin, rmax, Mx(0, DHi(D, S) - Abs(a - b) * S), S)),
+                      TriN(Mx(0, (a + b) * TS(D) - DHi(D, TS(D))), a, b, D))
 
 \* The enclosure <<lo, hi>> of the true area in every case: a point (+-1 for the rounding of the constants) where
 \* the value is known exactly, the Lipschitz interval otherwise.
